@@ -501,7 +501,7 @@ Proof.
 Qed.
 
 Lemma check_same s s1 outs :
-  check MAXR LIM s = (s1, outs) ->
+  check s = (s1, outs) ->
   chain s1 = chain s /\ rq s1 = rq s /\ start_height s1 = start_height s.
 Proof.
   unfold check. intros H.
@@ -532,3 +532,232 @@ Proof.
 Qed.
 
 End Ops.
+
+(* ---------------------------------------------------------------------------------------- *)
+(* One step: invariant, shape of the observation, how the chain changed                      *)
+
+Definition chain_rel (o : op) (c c1 : list hdr) (p : list Z) : Prop :=
+  match o with
+  | OProcess =>
+      (p = [0] /\ c1 = c) \/
+      (exists id rest, p = 1 :: id :: 1 :: rest /\ c1 = c) \/
+      (exists id rest, p = 1 :: id :: 0 :: zlen c :: id :: rest /\ map fst c1 = map fst c ++ [id])
+  | OHeaders _ => True
+  | _ => c1 = c
+  end.
+
+Section Step.
+Variables MAXR LIM HT HDT BT DELTA : Z.
+Variable parent_of : Z -> Z.
+Notation Inv := (Inv parent_of MAXR).
+Notation step := (step MAXR LIM HT HDT BT DELTA parent_of).
+Notation run_from := (run_from MAXR LIM HT HDT BT DELTA parent_of).
+Notation op_ok := (fun o => Forall (fun h : hdr => fst h <> 0 /\ snd h = parent_of (fst h)) (op_headers o)).
+
+Lemma step_spec w o w1 ob :
+  step w o = (w1, ob) -> Inv (w_sync w) -> op_ok o ->
+  Inv (w_sync w1) /\
+  exists code p, ob = code :: digest (w_sync w1) ++ p /\
+                 chain_rel o (chain (w_sync w)) (chain (w_sync w1)) p.
+Proof.
+  intros H HI Hok. destruct w as [s uv]. cbn [w_sync] in *.
+  destruct o; unfold Sync.step in H; cbv beta iota zeta in H; cbn [w_sync w_uverified] in H.
+  - (* OVersion *)
+    injection H as <- <-. cbn [w_sync]. split; [eapply Inv_ext; [| | |exact HI]; reflexivity|].
+    exists OK, []. split; reflexivity.
+  - (* OHeaders *)
+    destruct (handle_headers MAXR LIM s hs) as [s1 res] eqn:E. injection H as <- <-. cbn [w_sync].
+    split; [eapply handle_headers_inv; [exact E|exact Hok|exact HI]|].
+    eexists _, _. split; [reflexivity|exact I].
+  - (* OBlockMsg *)
+    destruct (handle_block s id valid) as [s1 ok] eqn:E. injection H as <- <-. cbn [w_sync].
+    apply (handle_block_inv parent_of MAXR) in E as [HI1 Hc]; [|exact HI].
+    split; [exact HI1|]. exists OK, []. split; [reflexivity|exact Hc].
+  - (* OProcess *)
+    destruct (process_next MAXR LIM parent_of s) as [[s1 popped] reqs] eqn:E.
+    injection H as <- <-. cbn [w_sync].
+    apply process_next_spec in E as [HI1 Hrel]; [|exact HI].
+    split; [exact HI1|].
+    destruct popped as [[id code]|].
+    + destruct Hrel as [[-> Hc]|[-> Hc]].
+      * eexists _, _. split; [reflexivity|]. cbn [tl]. right. left.
+        eexists _, _. split; [reflexivity|exact Hc].
+      * assert (Hh : height s1 = zlen (chain s)).
+        { unfold height. rewrite Hc, zlen_app'. unfold zlen. cbn [length]. lia. }
+        exists OK, (1 :: id :: 0 :: zlen (chain s) :: id :: zlen reqs :: reqs).
+        split; [cbn [hd tl Z.eqb app]; rewrite Hh; reflexivity|].
+        right. right. eexists _, _. split; [reflexivity|].
+        rewrite Hc, map_app. reflexivity.
+    + subst s1. exists OK, [0]. split; [reflexivity|]. left. auto.
+  - (* OCheck *)
+    destruct (check s) as [s1 outs] eqn:E. injection H as <- <-. cbn [w_sync].
+    apply check_same in E as (Hc & Hr & Hs).
+    split; [eapply Inv_ext; [exact Hc|exact Hr|exact Hs|exact HI]|].
+    eexists _, _. split; [reflexivity|exact Hc].
+  - (* OAdvance *)
+    injection H as <- <-. cbn [w_sync]. split; [eapply Inv_ext; [| | |exact HI]; reflexivity|].
+    exists OK, []. split; reflexivity.
+  - (* OTimeouts *)
+    destruct (timed_out HT HDT BT s); injection H as <- <-; cbn [w_sync].
+    + split; [apply reconnect_inv; exact HI|]. exists OK, [1]. split; reflexivity.
+    + split; [exact HI|]. exists OK, [0]. split; reflexivity.
+  - (* OReconnect *)
+    injection H as <- <-. cbn [w_sync]. split; [apply reconnect_inv; exact HI|].
+    exists OK, []. split; reflexivity.
+  - (* ORestartNode *)
+    injection H as <- <-. cbn [w_sync]. split; [apply restart_inv; exact HI|].
+    exists OK, []. split; [rewrite app_nil_r; reflexivity|reflexivity].
+  - (* OUBlockMsg *)
+    injection H as <- <-. cbn [w_sync]. split; [exact HI|]. exists OK, []. split; reflexivity.
+  - (* OUHeaders *)
+    destruct (untrusted_headers DELTA s uv hs) as [v err]. injection H as <- <-. cbn [w_sync].
+    split; [exact HI|]. eexists _, _. split; reflexivity.
+  - (* OUTx *)
+    injection H as <- <-. cbn [w_sync]. split; [exact HI|]. eexists _, _. split; reflexivity.
+  - (* OUInv *)
+    injection H as <- <-. cbn [w_sync]. split; [exact HI|]. eexists _, _. split; reflexivity.
+Qed.
+
+Lemma w_after_inv ops : forall w,
+  Inv (w_sync w) -> Forall op_ok ops ->
+  Inv (w_sync (fold_left (fun w o => fst (step w o)) ops w)).
+Proof.
+  induction ops as [|o ops IH]; intros w HI Hops; [exact HI|].
+  inversion Hops as [|o0 ops0 Ho Hops' E0]; subst o0 ops0.
+  cbn [fold_left]. apply IH; [|exact Hops'].
+  destruct (step w o) as [w1 ob] eqn:Es. cbn [fst].
+  apply step_spec in Es as [HI1 _]; assumption.
+Qed.
+
+End Step.
+
+Lemma w_init_inv parent_of MAXR start : Inv parent_of MAXR (w_sync (w_init start)).
+Proof.
+  split; [|split].
+  - exists []. split; [reflexivity|]. split; [reflexivity|constructor].
+  - intros _. cbn. auto.
+  - apply win_nil. reflexivity.
+Qed.
+
+(* ---------------------------------------------------------------------------------------- *)
+(* The monitor                                                                               *)
+
+Lemma parse_obs_digest code s p :
+  parse_obs (code :: digest s ++ p) =
+  Some (DG (negb (b2z (ready s) =? 0))
+           (negb (b2z (match chain s with [] => true | h :: c' => linked_from (fst h) c' end) =? 0))
+           (negb (b2z (nodup_ids (chain s)) =? 0))
+           (zlen (requested (rq s)))
+           (map fst (chain s)) p).
+Proof.
+  unfold digest. cbn [app]. unfold parse_obs.
+  assert (H1 : zlen (chain s) <? 0 = false) by (apply Z.ltb_ge; apply zlen_nonneg').
+  assert (H2 : zlen (map fst (chain s) ++ p) <? zlen (chain s) = false).
+  { apply Z.ltb_ge. rewrite zlen_app'. pose proof (zlen_nonneg' p). unfold zlen in *.
+    rewrite map_length. unfold hdr in *. lia. }
+  assert (H3 : Z.to_nat (zlen (chain s)) = length (map fst (chain s))).
+  { unfold zlen. rewrite map_length, Nat2Z.id. reflexivity. }
+  rewrite H1, H2, H3. cbn [orb]. rewrite take_app, drop_app. reflexivity.
+Qed.
+
+Lemma zeq_refl l : zeq l l = true.
+Proof. induction l as [|x l IH]; [reflexivity|]. cbn [zeq]. rewrite Z.eqb_refl, IH. reflexivity. Qed.
+
+Section Monitor.
+Variables MAXR LIM HT HDT BT DELTA : Z.
+Variable parent_of : Z -> Z.
+Variable rk : Z -> Z.
+Hypothesis rk_lt : forall id, id <> 0 -> rk (parent_of id) < rk id.
+Hypothesis MAXR_nonneg : 0 <= MAXR.
+Notation Inv := (Inv parent_of MAXR).
+Notation step := (step MAXR LIM HT HDT BT DELTA parent_of).
+Notation run_from := (run_from MAXR LIM HT HDT BT DELTA parent_of).
+Notation op_ok := (fun o => Forall (fun h : hdr => fst h <> 0 /\ snd h = parent_of (fst h)) (op_headers o)).
+
+Lemma c02_step_ok o s s1 p :
+  Inv s -> Inv s1 -> chain_rel o (chain s) (chain s1) p ->
+  c02_step MAXR (map fst (chain s)) o
+    (DG (negb (b2z (ready s1) =? 0))
+        (negb (b2z (match chain s1 with [] => true | h :: c' => linked_from (fst h) c' end) =? 0))
+        (negb (b2z (nodup_ids (chain s1)) =? 0))
+        (zlen (requested (rq s1)))
+        (map fst (chain s1)) p) = 0.
+Proof.
+  intros (Hc & _ & _) (Hc1 & _ & Hw1) Hrel.
+  unfold c02_step. cbn [d_linked d_inverse d_nreq d_payload d_chain].
+  rewrite (chain_inv_digest_linked _ _ Hc1).
+  destruct (chain_inv_ok _ rk rk_lt _ Hc1) as (_ & _ & Hnd). rewrite Hnd.
+  cbn [b2z Z.eqb negb].
+  specialize (Hw1 MAXR_nonneg).
+  destruct (Z.gtb_spec (zlen (requested (rq s1))) MAXR) as [Hgt|_]; [lia|].
+  destruct (chain_inv_ids _ _ Hc) as [l El]. destruct (chain_inv_ids _ _ Hc1) as [l1 El1].
+  destruct o; cbn [chain_rel] in Hrel;
+    try (rewrite Hrel, zeq_refl; reflexivity).
+  - (* OHeaders *)
+    rewrite El, El1. cbn [common_prefix Z.eqb]. rewrite zlen_cons'.
+    pose proof (zlen_nonneg' (common_prefix l l1)) as Hn.
+    destruct (Z.ltb_spec (1 + zlen (common_prefix l l1)) 1) as [Hlt|_]; [lia|reflexivity].
+  - (* OProcess *)
+    destruct Hrel as [[-> ->]|[(id & rest & -> & ->)|(id & rest & -> & Hm)]].
+    + rewrite zeq_refl. reflexivity.
+    + rewrite zeq_refl. reflexivity.
+    + rewrite Z.eqb_refl. cbn [negb].
+      assert (Hz : zlen (chain s) = zlen (map fst (chain s))).
+      { unfold zlen. rewrite map_length. reflexivity. }
+      rewrite Hz, Z.eqb_refl. cbn [negb]. rewrite Hm, zeq_refl. reflexivity.
+Qed.
+
+Lemma c02_from_ok ops : forall w i,
+  Inv (w_sync w) -> Forall op_ok ops ->
+  c02_from MAXR (map fst (chain (w_sync w))) i ops (run_from w ops) = None.
+Proof.
+  induction ops as [|o ops IH]; intros w i HI Hops; [reflexivity|].
+  inversion Hops as [|o0 ops0 Ho Hops' E0]; subst o0 ops0.
+  cbn [Sync.run_from]. destruct (step w o) as [w1 ob] eqn:Es.
+  apply step_spec in Es as (HI1 & code & p & -> & Hrel); [|exact HI|exact Ho].
+  cbn [c02_from]. rewrite parse_obs_digest.
+  rewrite (c02_step_ok o (w_sync w) (w_sync w1) p HI HI1 Hrel).
+  cbn [Z.eqb negb d_chain]. apply IH; assumption.
+Qed.
+
+End Monitor.
+
+(* ---------------------------------------------------------------------------------------- *)
+(* The statements closed by props/C02.v                                                      *)
+
+Theorem chain_linked :
+  forall (MAXR LIM HT HDT BT DELTA : Z) (parents : list (Z * Z)) (rk : Z -> Z) (start : Z) (ops : list op),
+    sync_valid (table_fn parents) rk ops ->
+    chain_ok (chain (w_sync (w_after MAXR LIM HT HDT BT DELTA parents start ops))).
+Proof.
+  intros MAXR LIM HT HDT BT DELTA parents rk start ops (Hrk & Hhs & _).
+  unfold w_after.
+  pose proof (w_after_inv MAXR LIM HT HDT BT DELTA (table_fn parents) ops (w_init start)
+                (w_init_inv _ _ _) Hhs) as (Hc & _).
+  eapply chain_inv_ok; [exact Hrk|exact Hc].
+Qed.
+
+Theorem c02_monitor_passes :
+  forall (MAXR LIM HT HDT BT DELTA : Z) (parents : list (Z * Z)) (rk : Z -> Z) (start : Z) (ops : list op),
+    0 <= MAXR ->
+    sync_valid (table_fn parents) rk ops ->
+    c02_monitor MAXR ops (run MAXR LIM HT HDT BT DELTA parents start ops) = None.
+Proof.
+  intros MAXR LIM HT HDT BT DELTA parents rk start ops HM (Hrk & Hhs & _).
+  unfold c02_monitor.
+  change (run MAXR LIM HT HDT BT DELTA parents start ops)
+    with (run_from MAXR LIM HT HDT BT DELTA (table_fn parents) (w_init start) ops).
+  change [0] with (map fst (chain (w_sync (w_init start)))).
+  eapply c02_from_ok; [exact Hrk|exact HM|apply w_init_inv|exact Hhs].
+Qed.
+
+Theorem c02_monitor_passes_consts :
+  forall (parents : list (Z * Z)) (rk : Z -> Z) (start : Z) (ops : list op),
+    sync_valid (table_fn parents) rk ops ->
+    c02_monitor maxRequestedBlocks ops
+      (run maxRequestedBlocks maxPendingBlockSize handshakeTimeout headerTimeout blockTimeout
+           UntrustedHeaderDelta parents start ops) = None.
+Proof.
+  intros parents rk start ops Hv. eapply c02_monitor_passes; [|exact Hv].
+  unfold maxRequestedBlocks. lia.
+Qed.
